@@ -12,7 +12,7 @@
     worker with gostats.Exp itself on the same stream), so WHICH draw ends up on WHICH branch
     is compared exactly; the number of raw values consumed is compared too.
     Oracle: the property text on Go's output alone (Spec/GenShape.v). *)
-From Coq Require Import String ZArith NArith QArith Bool Arith List.
+From Coq Require Import String ZArith NArith QArith Qabs Bool Arith List.
 From GT Require Import Base.Sexp Base.UTree Base.Codec Spec.Obs Spec.GenShape
      Model.Reroot Model.Rand Model.Rand2 Model.TreeGen Judge.Common.
 Import ListNotations.
